@@ -66,6 +66,7 @@ def run(ctx):
     ctx.assumptions = ["adapters vp/ops_ecss.py project objects by attribute reads only",
                        "TLC evaluates SpacePacket.tla (layout written from CCSDS 133.0-B-2 4.1.3 with div/mod)",
                        "cross products beyond the grid are sampled, single fields/words are exhaustive"]
+    ctx.symbolic_laws(['Law_SpacePacket', 'Law_SpacePacketOnto'])
     ctx.replay_vectors("MC_Codec", "MC_Codec.cfg", perform, "grid", classify, consts='CONSTANT Area = "sp"',
                        need_actions=("PickVector",))
     ctx.validate_events(events(ctx), "calls", classify)
